@@ -653,6 +653,8 @@ package commands
 //@   requires @inv gf != nil && to != nil && from != nil && !dyntype(to, "*os.File") && !is_tee(to)
 //@   at call tools.Spool:1 assert arg0__ == to && rrest(arg1__) == old(rrest(from)) && wbuf(to) == old(wbuf(to))
 //@   at call errors.NewNotAPointerError:1 assert wbuf(to) == scat(old(wbuf(to)), old(rrest(from))) && len(old(rrest(from))) != 0
+//@   ensures lastdecodeerr(0) != nil && result1 == nil ==> wbuf(to) == scat(old(wbuf(to)), old(rrest(from)))
+//@   ensures lastdecodeerr(0) != nil && result1 != nil ==> wbuf(to) == scat(old(wbuf(to)), old(rrest(from))) || lastspoolerr(0) != nil
 // Every transfer taken from the buffer for one list_available_blobs answer is
 // returned (none dropped, none invented), and each becomes exactly one entry
 // of the answer.
